@@ -123,7 +123,7 @@ add("C05", "exploration", ["dbh"], dbh("c05", ["--n", "1600"], ["--n", "20000", 
     "adjacency order) must equal the dump taken before; small mutating transactions between the maintenance steps (the reference dump is then re-taken) "
     "so that what is written after a maintenance operation must survive the following ones.",
     "Dumps are taken through public queries only; databases up to a few hundred elements.", "DESIGN.md §6 C05")
-add("C06", "exploration", ["dbh"], dbh("c06", ["--n", "200"], ["--n", "5000", "--len", "100"]),
+add("C06", "exploration", ["dbh"], dbh("c06", ["--n", "200"], ["--n", "2000", "--len", "80"]),
     "lock-step differential execution on the six database variants",
     "The same generated history (incl. failing queries, rolled back transactions, values above 64 KiB and bursts above 8192 nodes) executed on "
     "DbMemory, DbFile, Db and the three DbAny kinds: equal QueryResult or all Err after every query, equal exact dumps periodically and at the end.",
@@ -148,7 +148,7 @@ add("C21", "exploration", ["dbh"], dbh("c21", ["--n", "4800"], ["--n", "60000", 
     "largest legitimate request is reported).",
     "Dev profile (overflow checks and debug assertions on), which is what cargo build/test use; release is not run here.", "DESIGN.md §6 C21")
 
-add("C07", "exploration", ["dbh"], dbh("c07", ["--n", "96"], ["--n", "3000", "--mutants", "250"]),
+add("C07", "exploration", ["dbh"], dbh("c07", ["--n", "96"], ["--n", "1000", "--mutants", "200"]),
     "panic monitor + allocation-cap allocator over structure-aware mutants of valid file pairs, in worker processes",
     "Valid data-file / write-ahead-log pairs (closed and mid-transaction) mutated structure-aware and opened with Db, DbFile and DbMemory, then read "
     "completely: no panic, no abort, no allocation request above 64 MiB for files of a few KiB. Known, unrepaired crash sites are listed in "
